@@ -10,10 +10,12 @@ import squeeth_lib as L
 import squeeth_gen as G
 
 PROPERTY = "C14"
-LEAN_MODULES = ["Proofs.C14", "Proofs.C14.Window", "Proofs.C14.Liquidation", "Proofs.C14.Amounts", "Proofs.C14.Moves", "Proofs.C14.Update", "Proofs.C14.Completes"]
+LEAN_MODULES = ["Proofs.C14", "Proofs.C14.Window", "Proofs.C14.Liquidation", "Proofs.C14.Amounts", "Proofs.C14.Moves", "Proofs.C14.Update", "Proofs.C14.Completes", "Proofs.C14.Long"]
 DRIVERS = ["driver_squeeth"]
 RULE = ("sequences of vault operations (open_deposit_mint on new/existing/unknown vaults with and without an LP position, deposit, "
-        "deposit/withdraw_uni_position, burn_and_withdraw, liquidate, update, _reduce_debt, remove_liquidity on the pool) on a real "
+        "deposit/withdraw_uni_position, burn_and_withdraw, liquidate, update, _reduce_debt, remove_liquidity on the pool) and of the long side "
+        "(buy_squeeth / sell_squeeth by oSQTH amount, ETH amount, both, neither; part / all / a hair more / far more than the wallet holds, zero, negative, "
+        "closed pool, two fee tiers) on a real "
         "Broker + UniLpMarket(oSQTH/WETH) + SqueethMarket, interleaved with moves along random price / norm-factor paths (spot mode, "
         "7-point TWAP, short history, coarse grid, shocks) plus a boundary stream of exactly representable ties (2·coll = 3·debt, "
         "coll = 0.5, coll − pay = 0.5, coll = pay), the same LP cases on a pool whose token0 is oSQTH, and every amount slot fed with NaN / sNaN / +-Infinity / 1E+-400 / -0; "
@@ -127,6 +129,57 @@ def check_liquidated(ctx, o, sp, vid, v, after_v, key_prefix):
     return excess
 
 
+def trade_amount(o):
+    """the oSQTH amount a buy_squeeth / sell_squeeth call hands to the pool (exact), None when no amount is given"""
+    if o.op.get("osqth") is not None:
+        return L.fr(o.op["osqth"])
+    if o.op.get("eth") is not None:
+        return L.fr(o.op["eth"]) / L.fr(o.osqth) if L.fr(o.osqth) != 0 else None
+    return None
+
+
+def check_trade(ctx, o):
+    """the long side trades with the oSQTH/WETH pool only: vaults, vault counter and pool positions are as they were (accepted or rejected);
+    an accepted buy of `a` oSQTH costs a·p/(1−f) WETH (fee = f of that), an accepted sell of `a` brings a·(1−f)·p WETH (fee = f·a oSQTH),
+    p = the pool's price, f = its fee rate; the returned triple says the same; negative amounts are never accepted"""
+    k = o.op["k"]
+    key = f"{k}:{'ok' if o.err is None else 'rejected'}"
+    norm = lambda st: ([(int(i), L.fr(v["coll"]), L.fr(v["short"]), v["nft"] and [int(x) for x in v["nft"]]) for i, v in st["vaults"]], int(st["maxId"]),  # noqa: E731
+                       [([int(x) for x in kk], int(p["liquidity"]), L.fr(p["p0"]), L.fr(p["p1"]), bool(p["transferred"])) for kk, p in st["positions"]])
+    if norm(o.before) != norm(o.after):
+        ctx.violate(f"trade.touches-vaults:{key}", f"{k}_squeeth {o.op} changed vaults / positions: {o.before['vaults']} {o.before['positions']} -> {o.after['vaults']} {o.after['positions']}"[:600], o.replay())
+    if o.err is not None:
+        return
+    a = trade_amount(o)
+    if a is None:
+        ctx.violate(f"trade.accepted-without-amount:{k}", f"{k}_squeeth {o.op} accepted", o.replay())
+        return
+    if a < 0:
+        ctx.violate(f"trade.negative-accepted:{k}", f"{k}_squeeth {o.op} accepted a negative amount", o.replay())
+        return
+    p, f = L.fr(o.env["uniPrice"]), L.fr(o.envj["uniFee"])
+    w0, w1 = wallet_of(o.before, "WETH"), wallet_of(o.after, "WETH")
+    q0, q1 = wallet_of(o.before, "OSQTH"), wallet_of(o.after, "OSQTH")
+    if k == "buy":
+        cost = a * p / (1 - f)
+        want = [cost * f, cost, a]
+        ok = close(q1, q0 + a, scale=q0) and debit_ok(w0, w1, cost)
+    else:
+        got = a * (1 - f) * p
+        want = [a * f, a, got]
+        ok = close(w1, w0 + got, scale=w0) and debit_ok(q0, q1, a)
+    if a == 0:
+        want, ok = [F(0)] * 3, (w0, q0) == (w1, q1)
+    if not ok:
+        ctx.violate(f"trade.movement:{k}", f"{k}_squeeth {o.op} at pool price {p}, fee rate {f}: wallet WETH {w0} -> {w1}, oSQTH {q0} -> {q1}; "
+                    f"the rule moves {[float(x) for x in want]} (fee, spent/sold, got)", o.replay())
+    if len(o.out) != 3 or not all(close(x, y, scale=max(want)) for x, y in zip(o.out, want)):
+        ctx.violate(f"trade.returned:{k}", f"{k}_squeeth {o.op} returned {o.out}, the rule gives {[float(x) for x in want]}", o.replay())
+    if not o.env["uniOpen"]:
+        ctx.count("trade_accepted_on_closed_pool")
+    ctx.count("trades_checked")
+
+
 def oracle(ctx, o):
     check_window(ctx, o)
     if getattr(o, "rate_ok", True) is False:
@@ -142,6 +195,8 @@ def oracle(ctx, o):
     for n, b in o.after["wallet"]:
         if L.fr(b) < 0:
             ctx.violate(f"negative.wallet:{k}", f"{k} leaves wallet {n} = {b}", o.replay())
+    if k in ("buy", "sell"):
+        check_trade(ctx, o)
     # ---- accepted mint / collateral withdrawal / LP withdrawal ⇒ the vault is safe and not dust afterwards
     if accepted and k in ("openMint", "burnWithdraw", "withdrawUni"):
         vid = int(o.out[0]) if k == "openMint" else o.op["vk"]
